@@ -289,6 +289,84 @@ func checkKeyType[K comparable](st *c10Stats, tname string, vals []K, names []st
 	}
 }
 
+// manyColliding stores n distinct keys whose hashes collide completely (one chain) or into 4 chains and
+// compares Load / Range / Size / Delete with a builtin map at several points ("distinct keys never alias
+// even when their hashes collide completely", also across the table resizes the inserts trigger).
+func manyColliding[K comparable](st *c10Stats, tname string, gen func(i int) K, n int) {
+	for _, chains := range []uint64{1, 4} {
+		idx := map[K]int{}
+		for i := 0; i < n; i++ {
+			idx[gen(i)] = i
+		}
+		h := func(k K, _ uint64) uint64 { i := uint64(idx[k]); return (i%chains)<<7 | (i/chains)%100 }
+		var problem string
+		func() {
+			defer func() {
+				if r := recover(); r != nil {
+					problem = fmt.Sprintf("PANIC: %v", r)
+				}
+			}()
+			m := xsync.NewMapOfWithHasher[K, int](h)
+			ref := map[K]int{}
+			check := func(when string) {
+				if problem != "" {
+					return
+				}
+				if m.Size() != len(ref) {
+					problem = fmt.Sprintf("%s: Size=%d, builtin map has %d", when, m.Size(), len(ref))
+					return
+				}
+				seen := 0
+				m.Range(func(k K, v int) bool {
+					seen++
+					if rv, ok := ref[k]; !ok || rv != v {
+						problem = fmt.Sprintf("%s: Range shows %v=%d, builtin map has (%d,%v)", when, k, v, rv, ok)
+					}
+					return true
+				})
+				if problem == "" && seen != len(ref) {
+					problem = fmt.Sprintf("%s: Range visits %d entries, builtin map has %d", when, seen, len(ref))
+				}
+				for i := 0; i < n && problem == ""; i++ {
+					k := gen(i)
+					v, ok := m.Load(k)
+					if rv, rok := ref[k]; ok != rok || v != rv {
+						problem = fmt.Sprintf("%s: Load(key #%d)=(%d,%v), builtin map has (%d,%v)", when, i, v, ok, rv, rok)
+					}
+				}
+			}
+			for i := 0; i < n; i++ {
+				m.Store(gen(i), i+1)
+				ref[gen(i)] = i + 1
+				st.steps++
+				if i == 5 || i == 11 || i == 125 || i == n-1 {
+					check(fmt.Sprintf("after storing %d colliding keys", i+1))
+				}
+			}
+			for i := 0; i < n; i += 3 {
+				m.Delete(gen(i))
+				delete(ref, gen(i))
+				st.steps++
+			}
+			check("after deleting every third key")
+			for i := 0; i < n; i += 6 {
+				m.Store(gen(i), -i-1)
+				ref[gen(i)] = -i - 1
+				st.steps++
+			}
+			check("after re-inserting into the holes")
+		}()
+		st.runs++
+		if problem != "" {
+			sig := fmt.Sprintf("key type %s: %d keys colliding into %d chain(s) are lost, aliased or duplicated", tname, n, chains)
+			if !st.seenSig[sig] {
+				st.seenSig[sig] = true
+				st.findings = append(st.findings, Finding{Property: "C10", Signature: sig, Detail: problem, Replay: map[string]interface{}{"engine": "C10", "type": tname}})
+			}
+		}
+	}
+}
+
 // valueClass keeps signatures stable: which special kinds of dynamic value are involved
 // (nil, pointer, pointer-shaped struct), not the identity of the values.
 func valueClass(tname, x, y, eq string) string {
@@ -358,6 +436,17 @@ func runC10(rc *runCtx) int {
 		checkKeyType(st, "struct{*int}", []ptrShaped{{nil}, {p}, {q}}, []string{"{nil}", "{p}", "{q}"}, toggle)
 		checkKeyType(st, "interface{}", []interface{}{nil, 1, "a", 0.0, negZero, p, q, padded{1, 2}, [2]int{1, 2}, true, ptrShaped{p}, int32(1), uint32(1), sval("a")},
 			[]string{"nil:nil", "int:1", "string:a", "float64:+0", "float64:-0", "pointer:p", "pointer:q", "struct:padded", "array:[2]int", "bool:true", "pointer-shaped struct:{p}", "int32:1", "uint32:1", "named string:sval(a)"}, toggle)
+		if seed <= 1 {
+			manyColliding(st, "int", func(i int) int { return i * 7 }, 300)
+			manyColliding(st, "string", func(i int) string { return fmt.Sprint("key-", i) }, 300)
+			manyColliding(st, "struct{string;int}", func(i int) strInt { return strInt{fmt.Sprint(i % 17), i} }, 300)
+			manyColliding(st, "interface{}", func(i int) interface{} {
+				if i%2 == 0 {
+					return i
+				}
+				return fmt.Sprint(i)
+			}, 300)
+		}
 		checkKeyType(st, "interface{String() string}", []stringer{nil, sval("a"), sval("b"), ival(1), ival(2), time.Duration(1)},
 			[]string{"nil:nil", "named string:a", "named string:b", "named int:1", "named int:2", "int64:Duration(1)"}, nil)
 	}
